@@ -43,6 +43,13 @@ def gen_cases(tier, seed):
             c["ends"] = [rng.choice(nodes)] if rng.random() < 0.7 else []
         c["interleave"] = rng.choice(["none", "bare-first", "bare-between", "empty-list-between"])
         cases.append(c)
+    # a hub whose (in-edge, out-edge) pairs are all constrained: the optimum (8) exceeds the number of edges (6)
+    hub_n = ["a", "b", "c", "d", "h", "x", "y"]; hub_e = [("a", "h"), ("b", "h"), ("c", "h"), ("d", "h"), ("h", "x"), ("h", "y")]
+    hub_f = {("a", "h"): 2, ("b", "h"): 2, ("c", "h"): 2, ("d", "h"): 2, ("h", "x"): 4, ("h", "y"): 4}
+    hub_c = [[[u, "h"], ["h", w]] for u in ("a", "b", "c", "d") for w in ("x", "y")]
+    for cyc_ in (False, True):
+        for cons in (hub_c, hub_c[:7]):
+            cases.append({"covlen": None, "lengths": [], "spec": gen.spec(hub_n, hub_e), "cyc": cyc_, "node": False, "ignore": [], "starts": [], "ends": [], "cons": cons, "cov": 1.0})
     n = 500 if tier == "quick" else 5000
     for i in range(n):
         rng = gen.rng_for("C09", seed, i)
